@@ -1,0 +1,1301 @@
+//! Verification harness (feature `verif`) for the decoders of untrusted wire data: transaction,
+//! sequencer block, filtered sequencer block, Celestia metadata (list) and rollup data (list).
+//!
+//! Reads an op script from `$VERIF_IN`, writes one observation line per op to `$VERIF_OUT`.
+//!
+//! Ops (whitespace separated tokens, `<dump>` is the canonical text form of a raw protobuf
+//! struct, see `dump_*` / `parse_*`):
+//!
+//! * `case ...`                                   echoed
+//! * `mk sb seed=.. rollups=.. txs=.. deps=.. items=.. aspen=.. eci=.. height=.. secs=.. nanos=..
+//!   cid=..`  builds a valid block with the crate's `ConfigureSequencerBlock` and prints the raw
+//!   dumps of the block, a filtered block, the Celestia metadata and every rollup data entry
+//! * `mk tx seed=.. acts=.. nonce=.. cid=..`      builds and signs a transaction, prints its dump
+//! * `w <kind> <z> <mutations> <dump>`            encodes `<dump>` with prost (`z=1`: and compresses
+//!   with brotli after / `z=2`: before applying the mutations), applies the byte level
+//!   `<mutations>`, then decodes exactly as the services do (brotli decompress for `z>0`, prost
+//!   decode, `try_from_raw`) under `catch_unwind` and prints
+//!   `w <kind> panic | werr=<brotli|prost> | err=<class> | ok reenc=<bool> checks=<bool> ..`
+//!   followed by the oracle facts and the dump of the raw struct prost produced.
+//!   `[@<source kind>] <dump>` encodes the dump as another message type than the one decoded;
+//!   the mutation `S<seed>` (transactions) signs the body bytes of the dump first.
+use std::{
+    fmt::Write as _,
+    panic::{
+        catch_unwind,
+        AssertUnwindSafe,
+    },
+};
+
+use bytes::Bytes;
+use prost::{
+    Message as _,
+    Name as _,
+};
+use sha2::{
+    Digest as _,
+    Sha256,
+};
+
+use crate::{
+    crypto::{
+        Signature,
+        SigningKey,
+        VerificationKey,
+    },
+    generated::{
+        astria::{
+            primitive::v1 as rawp,
+            protocol::transaction::v1 as rawt,
+            sequencerblock::v1 as raws,
+        },
+        protocol::price_feed::v1::ExtendedCommitInfoWithCurrencyPairMapping as RawEci,
+    },
+    primitive::v1::{
+        derive_merkle_tree_from_rollup_txs,
+        Address,
+        RollupId,
+        TransactionId,
+    },
+    protocol::{
+        price_feed::v1::ExtendedCommitInfoWithCurrencyPairMapping,
+        test_utils::ConfigureSequencerBlock,
+        transaction::v1::{
+            action::{
+                Action,
+                BridgeLock,
+                FeeAssetChange,
+                IbcRelayerChange,
+                IbcSudoChange,
+                RollupDataSubmission,
+                SudoAddressChange,
+                Transfer,
+            },
+            Transaction,
+            TransactionBody,
+        },
+    },
+    sequencerblock::v1::{
+        block::{
+            Deposit,
+            FilteredSequencerBlock,
+            SequencerBlock,
+        },
+        SubmittedMetadata,
+        SubmittedRollupData,
+    },
+    Protobuf as _,
+};
+
+// ------------------------------------------------------------------------------- helpers
+
+fn hex(bytes: &[u8]) -> String {
+    let mut s = String::with_capacity(bytes.len() * 2);
+    for b in bytes {
+        write!(s, "{b:02x}").unwrap();
+    }
+    s
+}
+
+fn unhex(s: &str) -> Vec<u8> {
+    assert!(s.len() % 2 == 0, "odd hex string");
+    (0..s.len() / 2)
+        .map(|i| u8::from_str_radix(&s[2 * i..2 * i + 2], 16).expect("hex"))
+        .collect()
+}
+
+/// splitmix64: the only source of "randomness" in the harness, seeded from the script
+struct Rng(u64);
+
+impl Rng {
+    fn next(&mut self) -> u64 {
+        self.0 = self.0.wrapping_add(0x9e37_79b9_7f4a_7c15);
+        let mut z = self.0;
+        z = (z ^ (z >> 30)).wrapping_mul(0xbf58_476d_1ce4_e5b9);
+        z = (z ^ (z >> 27)).wrapping_mul(0x94d0_49bb_1331_11eb);
+        z ^ (z >> 31)
+    }
+
+    fn below(&mut self, n: u64) -> u64 {
+        if n == 0 {
+            0
+        } else {
+            self.next() % n
+        }
+    }
+
+    fn bytes(&mut self, n: usize) -> Vec<u8> {
+        (0..n).map(|_| (self.next() & 0xff) as u8).collect()
+    }
+}
+
+fn kv<'a>(toks: &[&'a str], key: &str) -> Option<&'a str> {
+    toks.iter()
+        .find_map(|t| t.strip_prefix(key).and_then(|r| r.strip_prefix('=')))
+}
+
+fn kv_u64(toks: &[&str], key: &str, default: u64) -> u64 {
+    kv(toks, key).map_or(default, |v| v.parse().expect("u64"))
+}
+
+// ------------------------------------------------------------------------------- dumps
+
+fn dump_proof(p: Option<&rawp::Proof>) -> String {
+    match p {
+        None => "-".to_string(),
+        Some(p) => format!("{}:{}:{}", hex(&p.audit_path), p.leaf_index, p.tree_size),
+    }
+}
+
+fn parse_proof(s: &str) -> Option<rawp::Proof> {
+    if s == "-" {
+        return None;
+    }
+    let mut it = s.split(':');
+    let audit_path = unhex(it.next().unwrap()).into();
+    let leaf_index = it.next().unwrap().parse().unwrap();
+    let tree_size = it.next().unwrap().parse().unwrap();
+    Some(rawp::Proof {
+        audit_path,
+        leaf_index,
+        tree_size,
+    })
+}
+
+fn dump_list<'a>(l: impl IntoIterator<Item = &'a Bytes>) -> String {
+    let mut s = String::new();
+    for b in l {
+        s.push_str(&hex(b));
+        s.push(',');
+    }
+    s
+}
+
+fn parse_list(s: &str) -> Vec<Bytes> {
+    let mut out = Vec::new();
+    let mut rest = s;
+    while let Some(k) = rest.find(',') {
+        out.push(unhex(&rest[..k]).into());
+        rest = &rest[k + 1..];
+    }
+    assert!(rest.is_empty(), "list items must be comma terminated");
+    out
+}
+
+fn dump_rid(r: Option<&rawp::RollupId>) -> String {
+    r.map_or_else(|| "-".to_string(), |r| hex(&r.inner))
+}
+
+fn parse_rid(s: &str) -> Option<rawp::RollupId> {
+    (s != "-").then(|| rawp::RollupId {
+        inner: unhex(s).into(),
+    })
+}
+
+fn dump_ids(l: &[rawp::RollupId]) -> String {
+    dump_list(l.iter().map(|r| &r.inner))
+}
+
+fn parse_ids(s: &str) -> Vec<rawp::RollupId> {
+    parse_list(s)
+        .into_iter()
+        .map(|inner| rawp::RollupId {
+            inner,
+        })
+        .collect()
+}
+
+fn dump_hdr(h: Option<&raws::SequencerBlockHeader>) -> String {
+    match h {
+        None => "-".to_string(),
+        Some(h) => format!(
+            "{}:{}:{}:{}:{}:{}",
+            hex(h.chain_id.as_bytes()),
+            h.height,
+            h.time
+                .as_ref()
+                .map_or_else(|| "-".to_string(), |t| format!("{}/{}", t.seconds, t.nanos)),
+            hex(&h.rollup_transactions_root),
+            hex(&h.data_hash),
+            hex(&h.proposer_address),
+        ),
+    }
+}
+
+fn parse_hdr(s: &str) -> Option<raws::SequencerBlockHeader> {
+    if s == "-" {
+        return None;
+    }
+    let f: Vec<&str> = s.split(':').collect();
+    assert_eq!(f.len(), 6, "header needs 6 fields");
+    let time = (f[2] != "-").then(|| {
+        let (a, b) = f[2].split_once('/').unwrap();
+        pbjson_types::Timestamp {
+            seconds: a.parse().unwrap(),
+            nanos: b.parse().unwrap(),
+        }
+    });
+    Some(raws::SequencerBlockHeader {
+        chain_id: String::from_utf8(unhex(f[0])).expect("chain id must be utf-8"),
+        height: f[1].parse().unwrap(),
+        time,
+        rollup_transactions_root: unhex(f[3]).into(),
+        data_hash: unhex(f[4]).into(),
+        proposer_address: unhex(f[5]).into(),
+    })
+}
+
+fn dump_eci(e: Option<&raws::ExtendedCommitInfoWithProof>) -> String {
+    match e {
+        None => "-".to_string(),
+        Some(e) => format!(
+            "{};{}",
+            hex(&e.extended_commit_info),
+            dump_proof(e.proof.as_ref())
+        ),
+    }
+}
+
+fn parse_eci(s: &str) -> Option<raws::ExtendedCommitInfoWithProof> {
+    if s == "-" {
+        return None;
+    }
+    let (a, b) = s.split_once(';').unwrap();
+    Some(raws::ExtendedCommitInfoWithProof {
+        extended_commit_info: unhex(a).into(),
+        proof: parse_proof(b),
+    })
+}
+
+fn dump_rt(rt: &raws::RollupTransactions) -> String {
+    format!(
+        "{};{};{}",
+        dump_rid(rt.rollup_id.as_ref()),
+        dump_list(&rt.transactions),
+        dump_proof(rt.proof.as_ref())
+    )
+}
+
+fn parse_rt(s: &str) -> raws::RollupTransactions {
+    let f: Vec<&str> = s.split(';').collect();
+    assert_eq!(f.len(), 3);
+    raws::RollupTransactions {
+        rollup_id: parse_rid(f[0]),
+        transactions: parse_list(f[1]),
+        proof: parse_proof(f[2]),
+    }
+}
+
+fn dump_sb(b: &raws::SequencerBlock) -> String {
+    let mut s = format!("bh={} hdr={}", hex(&b.block_hash), dump_hdr(b.header.as_ref()));
+    for rt in &b.rollup_transactions {
+        write!(s, " rt={}", dump_rt(rt)).unwrap();
+    }
+    write!(
+        s,
+        " rtp={} rip={} uch={} eci={}",
+        dump_proof(b.rollup_transactions_proof.as_ref()),
+        dump_proof(b.rollup_ids_proof.as_ref()),
+        dump_list(&b.upgrade_change_hashes),
+        dump_eci(b.extended_commit_info_with_proof.as_ref())
+    )
+    .unwrap();
+    s
+}
+
+fn all<'a>(toks: &[&'a str], key: &str) -> Vec<&'a str> {
+    toks.iter()
+        .filter_map(|t| t.strip_prefix(key).and_then(|r| r.strip_prefix('=')))
+        .collect()
+}
+
+fn parse_sb(toks: &[&str]) -> raws::SequencerBlock {
+    raws::SequencerBlock {
+        block_hash: unhex(kv(toks, "bh").unwrap()).into(),
+        header: parse_hdr(kv(toks, "hdr").unwrap()),
+        rollup_transactions: all(toks, "rt").into_iter().map(parse_rt).collect(),
+        rollup_transactions_proof: parse_proof(kv(toks, "rtp").unwrap()),
+        rollup_ids_proof: parse_proof(kv(toks, "rip").unwrap()),
+        upgrade_change_hashes: parse_list(kv(toks, "uch").unwrap()),
+        extended_commit_info_with_proof: parse_eci(kv(toks, "eci").unwrap()),
+    }
+}
+
+fn dump_fb(b: &raws::FilteredSequencerBlock) -> String {
+    let mut s = format!("bh={} hdr={}", hex(&b.block_hash), dump_hdr(b.header.as_ref()));
+    for rt in &b.rollup_transactions {
+        write!(s, " rt={}", dump_rt(rt)).unwrap();
+    }
+    write!(
+        s,
+        " rtp={} all={} rip={} uch={} eci={}",
+        dump_proof(b.rollup_transactions_proof.as_ref()),
+        dump_ids(&b.all_rollup_ids),
+        dump_proof(b.rollup_ids_proof.as_ref()),
+        dump_list(&b.upgrade_change_hashes),
+        dump_eci(b.extended_commit_info_with_proof.as_ref())
+    )
+    .unwrap();
+    s
+}
+
+fn parse_fb(toks: &[&str]) -> raws::FilteredSequencerBlock {
+    raws::FilteredSequencerBlock {
+        block_hash: unhex(kv(toks, "bh").unwrap()).into(),
+        header: parse_hdr(kv(toks, "hdr").unwrap()),
+        rollup_transactions: all(toks, "rt").into_iter().map(parse_rt).collect(),
+        rollup_transactions_proof: parse_proof(kv(toks, "rtp").unwrap()),
+        all_rollup_ids: parse_ids(kv(toks, "all").unwrap()),
+        rollup_ids_proof: parse_proof(kv(toks, "rip").unwrap()),
+        upgrade_change_hashes: parse_list(kv(toks, "uch").unwrap()),
+        extended_commit_info_with_proof: parse_eci(kv(toks, "eci").unwrap()),
+    }
+}
+
+fn dump_md(b: &raws::SubmittedMetadata) -> String {
+    format!(
+        "bh={} hdr={} ids={} rtp={} rip={} uch={} eci={}",
+        hex(&b.block_hash),
+        dump_hdr(b.header.as_ref()),
+        dump_ids(&b.rollup_ids),
+        dump_proof(b.rollup_transactions_proof.as_ref()),
+        dump_proof(b.rollup_ids_proof.as_ref()),
+        dump_list(&b.upgrade_change_hashes),
+        dump_eci(b.extended_commit_info_with_proof.as_ref())
+    )
+}
+
+fn parse_md(toks: &[&str]) -> raws::SubmittedMetadata {
+    raws::SubmittedMetadata {
+        block_hash: unhex(kv(toks, "bh").unwrap()).into(),
+        header: parse_hdr(kv(toks, "hdr").unwrap()),
+        rollup_ids: parse_ids(kv(toks, "ids").unwrap()),
+        rollup_transactions_proof: parse_proof(kv(toks, "rtp").unwrap()),
+        rollup_ids_proof: parse_proof(kv(toks, "rip").unwrap()),
+        upgrade_change_hashes: parse_list(kv(toks, "uch").unwrap()),
+        extended_commit_info_with_proof: parse_eci(kv(toks, "eci").unwrap()),
+    }
+}
+
+fn dump_rd(b: &raws::SubmittedRollupData) -> String {
+    format!(
+        "bh={} rid={} txs={} p={}",
+        hex(&b.sequencer_block_hash),
+        dump_rid(b.rollup_id.as_ref()),
+        dump_list(&b.transactions),
+        dump_proof(b.proof.as_ref())
+    )
+}
+
+fn parse_rd(toks: &[&str]) -> raws::SubmittedRollupData {
+    raws::SubmittedRollupData {
+        sequencer_block_hash: unhex(kv(toks, "bh").unwrap()).into(),
+        rollup_id: parse_rid(kv(toks, "rid").unwrap()),
+        transactions: parse_list(kv(toks, "txs").unwrap()),
+        proof: parse_proof(kv(toks, "p").unwrap()),
+    }
+}
+
+fn dump_tx(t: &rawt::Transaction) -> String {
+    format!(
+        "sig={} pk={} body={}",
+        hex(&t.signature),
+        hex(&t.public_key),
+        t.body.as_ref().map_or_else(
+            || "-".to_string(),
+            |b| format!("{};{}", hex(b.type_url.as_bytes()), hex(&b.value))
+        )
+    )
+}
+
+fn parse_tx(toks: &[&str]) -> rawt::Transaction {
+    let body = kv(toks, "body").unwrap();
+    rawt::Transaction {
+        signature: unhex(kv(toks, "sig").unwrap()).into(),
+        public_key: unhex(kv(toks, "pk").unwrap()).into(),
+        body: (body != "-").then(|| {
+            let (a, b) = body.split_once(';').unwrap();
+            pbjson_types::Any {
+                type_url: String::from_utf8(unhex(a)).expect("type url must be utf-8"),
+                value: unhex(b).into(),
+            }
+        }),
+    }
+}
+
+/// entries of a list dump are separated by the token `|`
+fn split_entries<'a>(toks: &[&'a str]) -> Vec<Vec<&'a str>> {
+    if toks.is_empty() || toks == ["-"] {
+        return Vec::new();
+    }
+    toks.split(|t| *t == "|").map(<[&str]>::to_vec).collect()
+}
+
+fn dump_mdl(l: &raws::SubmittedMetadataList) -> String {
+    if l.entries.is_empty() {
+        return "-".to_string();
+    }
+    l.entries.iter().map(dump_md).collect::<Vec<_>>().join(" | ")
+}
+
+fn parse_mdl(toks: &[&str]) -> raws::SubmittedMetadataList {
+    raws::SubmittedMetadataList {
+        entries: split_entries(toks).iter().map(|t| parse_md(t)).collect(),
+    }
+}
+
+fn dump_rdl(l: &raws::SubmittedRollupDataList) -> String {
+    if l.entries.is_empty() {
+        return "-".to_string();
+    }
+    l.entries.iter().map(dump_rd).collect::<Vec<_>>().join(" | ")
+}
+
+fn parse_rdl(toks: &[&str]) -> raws::SubmittedRollupDataList {
+    raws::SubmittedRollupDataList {
+        entries: split_entries(toks).iter().map(|t| parse_rd(t)).collect(),
+    }
+}
+
+// ------------------------------------------------------------------------------- error classes
+
+/// (name, is_terminal): the variant names of the crate's error kinds that make up a class
+const VOCAB: &[(&str, bool)] = &[
+    // transaction
+    ("UnsetBody", true),
+    ("Signature", true),
+    ("VerificationKey", true),
+    ("Verification", true),
+    ("TransactionBody", false),
+    ("Action", true),
+    ("UnsetParams", true),
+    ("InvalidTypeUrl", true),
+    ("DecodeAny", true),
+    ("Group", true),
+    // merkle proof
+    ("InvalidProof", false),
+    ("ZeroTreeSize", true),
+    ("LeafIndexOutsideTree", true),
+    ("AuditPathNotMultipleOf32", true),
+    // header
+    ("InvalidChainId", true),
+    ("InvalidHeight", true),
+    ("Time", true),
+    ("IncorrectRollupTransactionsRootLength", true),
+    ("ProposerAddress", true),
+    // shared
+    ("FieldNotSet", false),
+    ("time", true),
+    ("header", true),
+    ("rollup_id", true),
+    ("proof", true),
+    ("rollup_transactions_proof", true),
+    ("rollup_ids_proof", true),
+    ("IncorrectRollupIdLength", true),
+    ("UpgradeChangeHashes", true),
+    ("ExtendedCommitInfo", false),
+    ("ProofNotSet", true),
+    ("NotInSequencerBlock", true),
+    ("Decode", true),
+    ("InvalidExtendedCommitInfo", true),
+    // rollup transactions
+    ("RollupId", false),
+    ("ProofInvalid", false),
+    // sequencer block / filtered block
+    ("InvalidBlockHash", true),
+    ("Header", false),
+    ("InvalidHeader", false),
+    ("InvalidRollupId", false),
+    ("ParseRollupTransactions", false),
+    ("TransactionProofInvalid", false),
+    ("IdProofInvalid", false),
+    ("InvalidRollupTransactionsRoot", true),
+    ("RollupTransactionsNotInSequencerBlock", true),
+    ("RollupTransactionForIdNotInSequencerBlock", true),
+    ("InvalidRollupIdsProof", true),
+    // celestia
+    ("BlockHash", true),
+    ("RollupIds", false),
+    ("RollupTransactionsProof", false),
+    ("RollupIdsProof", false),
+    ("RollupTransactionsNotInCometBftBlock", true),
+    ("RollupIdsNotInCometBftBlock", true),
+    ("Proof", false),
+    ("SequencerBlockHash", true),
+];
+
+/// Maps the `Debug` form of one of the crate's decode errors to its class: the `/`-joined chain
+/// of error kind variants from the outermost to the first terminal one.
+fn class_of(debug: &str) -> String {
+    let mut out: Vec<&str> = Vec::new();
+    let bytes = debug.as_bytes();
+    let mut i = 0;
+    while i < bytes.len() {
+        if bytes[i].is_ascii_alphabetic() || bytes[i] == b'_' {
+            let start = i;
+            while i < bytes.len() && (bytes[i].is_ascii_alphanumeric() || bytes[i] == b'_') {
+                i += 1;
+            }
+            let ident = &debug[start..i];
+            if let Some((name, terminal)) = VOCAB.iter().find(|(n, _)| *n == ident) {
+                if out.last() != Some(name) {
+                    out.push(name);
+                }
+                if *terminal {
+                    break;
+                }
+            }
+        } else {
+            i += 1;
+        }
+    }
+    if out.is_empty() {
+        "Unknown".to_string()
+    } else {
+        out.join("/")
+    }
+}
+
+/// class of an error + formats it the way the services log it (Display of the whole source
+/// chain), which must not panic either
+fn err_class<E: std::error::Error>(e: &E) -> String {
+    let mut cur: Option<&dyn std::error::Error> = Some(e);
+    let mut sink = String::new();
+    while let Some(c) = cur {
+        let _ = write!(sink, "{c}: ");
+        cur = c.source();
+    }
+    class_of(&format!("{e:?}"))
+}
+
+// ------------------------------------------------------------------------------- validation
+
+enum Out {
+    Err(String),
+    Ok {
+        reenc: bool,
+        checks: bool,
+        extra: String,
+    },
+}
+
+fn eci_checks(
+    eci: Option<&raws::ExtendedCommitInfoWithProof>,
+    data_hash: [u8; 32],
+) -> bool {
+    let Some(eci) = eci else {
+        return true;
+    };
+    let Some(Ok(proof)) = eci.proof.clone().map(merkle::Proof::try_from_raw) else {
+        return false;
+    };
+    proof.verify(&Sha256::digest(&eci.extended_commit_info), data_hash)
+        && RawEci::decode(eci.extended_commit_info.clone())
+            .ok()
+            .and_then(|raw| ExtendedCommitInfoWithCurrencyPairMapping::try_from_raw(raw).ok())
+            .is_some()
+}
+
+fn rollup_proof_verifies(
+    id: &RollupId,
+    txs: &[Bytes],
+    proof: &merkle::Proof,
+    root: [u8; 32],
+) -> bool {
+    proof
+        .audit()
+        .with_root(root)
+        .with_leaf_builder()
+        .write(id.as_ref())
+        .write(&merkle::Tree::from_leaves(txs).root())
+        .finish_leaf()
+        .perform()
+}
+
+fn validate_sb(raw: raws::SequencerBlock) -> Out {
+    let v = match SequencerBlock::try_from_raw(raw) {
+        Ok(v) => v,
+        Err(e) => return Out::Err(err_class(&e)),
+    };
+    let raw2 = v.clone().into_raw();
+    let reenc = raws::SequencerBlock::decode(&*raw2.encode_to_vec())
+        .ok()
+        .and_then(|r| SequencerBlock::try_from_raw(r).ok())
+        .is_some_and(|v2| v2 == v);
+    let h = v.header();
+    let dh = *h.data_hash();
+    let rtr = *h.rollup_transactions_root();
+    let rtp = v.rollup_transactions_proof();
+    let c1 = rtp.verify(&Sha256::digest(rtr), dh);
+    let tree = derive_merkle_tree_from_rollup_txs(
+        v.rollup_transactions()
+            .iter()
+            .map(|(id, t)| (id, t.transactions())),
+    );
+    let c2 = rtp.verify(&Sha256::digest(tree.root()), dh);
+    let ids_root = merkle::Tree::from_leaves(v.rollup_transactions().keys()).root();
+    let c3 = v.rollup_ids_proof().verify(&Sha256::digest(ids_root), dh);
+    let c4 = eci_checks(raw2.extended_commit_info_with_proof.as_ref(), dh);
+    let rproofs = v
+        .rollup_transactions()
+        .values()
+        .all(|t| rollup_proof_verifies(t.rollup_id(), t.transactions(), t.proof(), rtr));
+    Out::Ok {
+        reenc,
+        checks: c1 && c2 && c3 && c4,
+        extra: format!(" rproofs={rproofs} n={}", v.rollup_transactions().len()),
+    }
+}
+
+fn validate_fb(raw: raws::FilteredSequencerBlock) -> Out {
+    let v = match FilteredSequencerBlock::try_from_raw(raw) {
+        Ok(v) => v,
+        Err(e) => return Out::Err(err_class(&e)),
+    };
+    let raw2 = v.clone().into_raw();
+    let reenc = raws::FilteredSequencerBlock::decode(&*raw2.encode_to_vec())
+        .ok()
+        .and_then(|r| FilteredSequencerBlock::try_from_raw(r).ok())
+        .is_some_and(|v2| v2 == v);
+    let h = v.header();
+    let dh = *h.data_hash();
+    let rtr = *h.rollup_transactions_root();
+    let c1 = v.rollup_transactions_proof().verify(&Sha256::digest(rtr), dh);
+    let c2 = v
+        .rollup_transactions()
+        .values()
+        .all(|t| rollup_proof_verifies(t.rollup_id(), t.transactions(), t.proof(), rtr));
+    let ids_root = merkle::Tree::from_leaves(v.all_rollup_ids()).root();
+    let c3 = v.rollup_ids_proof().verify(&Sha256::digest(ids_root), dh);
+    let c4 = eci_checks(raw2.extended_commit_info_with_proof.as_ref(), dh);
+    Out::Ok {
+        reenc,
+        checks: c1 && c2 && c3 && c4,
+        extra: format!(" n={}", v.rollup_transactions().len()),
+    }
+}
+
+fn md_checks(v: &SubmittedMetadata) -> (bool, raws::SubmittedMetadata) {
+    let raw2 = v.clone().into_raw();
+    let u = v.clone().into_unchecked();
+    let dh = *u.header.data_hash();
+    let c1 = u
+        .rollup_transactions_proof
+        .verify(&Sha256::digest(u.header.rollup_transactions_root()), dh);
+    let ids_root = merkle::Tree::from_leaves(&u.rollup_ids).root();
+    let c3 = u.rollup_ids_proof.verify(&Sha256::digest(ids_root), dh);
+    let c4 = eci_checks(raw2.extended_commit_info_with_proof.as_ref(), dh);
+    (c1 && c3 && c4, raw2)
+}
+
+fn validate_md(raw: raws::SubmittedMetadata) -> Out {
+    let v = match SubmittedMetadata::try_from_raw(raw) {
+        Ok(v) => v,
+        Err(e) => return Out::Err(err_class(&e)),
+    };
+    let (checks, raw2) = md_checks(&v);
+    let reenc = raws::SubmittedMetadata::decode(&*raw2.encode_to_vec())
+        .ok()
+        .and_then(|r| SubmittedMetadata::try_from_raw(r).ok())
+        .is_some_and(|v2| v2.into_raw() == raw2);
+    Out::Ok {
+        reenc,
+        checks,
+        extra: String::new(),
+    }
+}
+
+fn rd_checks(v: &SubmittedRollupData) -> (bool, raws::SubmittedRollupData) {
+    let raw2 = v.clone().into_raw();
+    // the type states no invariant beyond a well-formed proof: it must re-parse and be usable
+    let wellformed = raw2
+        .proof
+        .clone()
+        .is_some_and(|p| merkle::Proof::try_from_raw(p).is_ok());
+    let _ = rollup_proof_verifies(&v.rollup_id(), v.transactions(), v.proof(), [7; 32]);
+    (wellformed, raw2)
+}
+
+fn validate_rd(raw: raws::SubmittedRollupData) -> Out {
+    let v = match SubmittedRollupData::try_from_raw(raw) {
+        Ok(v) => v,
+        Err(e) => return Out::Err(err_class(&e)),
+    };
+    let (checks, raw2) = rd_checks(&v);
+    let reenc = raws::SubmittedRollupData::decode(&*raw2.encode_to_vec())
+        .ok()
+        .and_then(|r| SubmittedRollupData::try_from_raw(r).ok())
+        .is_some_and(|v2| v2.into_raw() == raw2);
+    Out::Ok {
+        reenc,
+        checks,
+        extra: String::new(),
+    }
+}
+
+/// the conductor drops the whole list when one entry is malformed
+fn validate_mdl(raw: raws::SubmittedMetadataList) -> Out {
+    let mut vs = Vec::new();
+    for (i, e) in raw.entries.into_iter().enumerate() {
+        match SubmittedMetadata::try_from_raw(e) {
+            Ok(v) => vs.push(v),
+            Err(e) => return Out::Err(format!("{i}@{}", err_class(&e))),
+        }
+    }
+    let mut checks = true;
+    let mut raws2 = Vec::new();
+    for v in &vs {
+        let (c, r) = md_checks(v);
+        checks &= c;
+        raws2.push(r);
+    }
+    let list = raws::SubmittedMetadataList {
+        entries: raws2,
+    };
+    let z = crate::brotli::compress_bytes(&list.encode_to_vec()).expect("compress");
+    let reenc = crate::brotli::decompress_bytes(&z)
+        .ok()
+        .and_then(|d| raws::SubmittedMetadataList::decode(&*d).ok())
+        .is_some_and(|l2| {
+            l2.entries.len() == list.entries.len()
+                && l2.entries.into_iter().zip(&list.entries).all(|(e, want)| {
+                    SubmittedMetadata::try_from_raw(e).is_ok_and(|v| v.into_raw() == *want)
+                })
+        });
+    Out::Ok {
+        reenc,
+        checks,
+        extra: format!(" n={}", vs.len()),
+    }
+}
+
+fn validate_rdl(raw: raws::SubmittedRollupDataList) -> Out {
+    let mut vs = Vec::new();
+    for (i, e) in raw.entries.into_iter().enumerate() {
+        match SubmittedRollupData::try_from_raw(e) {
+            Ok(v) => vs.push(v),
+            Err(e) => return Out::Err(format!("{i}@{}", err_class(&e))),
+        }
+    }
+    let mut checks = true;
+    let mut raws2 = Vec::new();
+    for v in &vs {
+        let (c, r) = rd_checks(v);
+        checks &= c;
+        raws2.push(r);
+    }
+    let list = raws::SubmittedRollupDataList {
+        entries: raws2,
+    };
+    let z = crate::brotli::compress_bytes(&list.encode_to_vec()).expect("compress");
+    let reenc = crate::brotli::decompress_bytes(&z)
+        .ok()
+        .and_then(|d| raws::SubmittedRollupDataList::decode(&*d).ok())
+        .is_some_and(|l2| {
+            l2.entries.len() == list.entries.len()
+                && l2.entries.into_iter().zip(&list.entries).all(|(e, want)| {
+                    SubmittedRollupData::try_from_raw(e).is_ok_and(|v| v.into_raw() == *want)
+                })
+        });
+    Out::Ok {
+        reenc,
+        checks,
+        extra: format!(" n={}", vs.len()),
+    }
+}
+
+fn validate_tx(raw: rawt::Transaction) -> Out {
+    let v = match Transaction::try_from_raw(raw) {
+        Ok(v) => v,
+        Err(e) => return Out::Err(err_class(&e)),
+    };
+    // both conversion paths of the trait must agree
+    let raw2 = v.to_raw();
+    let reenc = rawt::Transaction::decode(&*raw2.encode_to_vec())
+        .ok()
+        .and_then(|r| Transaction::try_from_raw_ref(&r).ok())
+        .is_some_and(|v2| v2.to_raw() == raw2 && v2.body().to_raw() == v.body().to_raw());
+    let body_bytes = raw2.body.as_ref().map(|b| b.value.clone()).unwrap_or_default();
+    let sig_ok = v
+        .verification_key()
+        .verify(&v.signature(), &body_bytes)
+        .is_ok();
+    let body_ok = raw2
+        .body
+        .clone()
+        .and_then(|b| TransactionBody::try_from_any(b).ok())
+        .is_some_and(|b| b.to_raw() == v.body().to_raw());
+    let _ = v.id();
+    Out::Ok {
+        reenc,
+        checks: sig_ok && body_ok,
+        extra: format!(" acts={}", v.actions().len()),
+    }
+}
+
+// ------------------------------------------------------------------------------- oracle facts
+
+/// outcome of the abstract (codec / crypto) primitives on the parts of the raw struct, evaluated
+/// directly; the model composes them in the order the validation layer does
+fn oracle_eci(e: Option<&raws::ExtendedCommitInfoWithProof>) -> &'static str {
+    match e {
+        None => "-",
+        Some(e) => match RawEci::decode(e.extended_commit_info.clone()) {
+            Err(_) => "Decode",
+            Ok(raw) => match ExtendedCommitInfoWithCurrencyPairMapping::try_from_raw(raw) {
+                Err(_) => "InvalidExtendedCommitInfo",
+                Ok(_) => "ok",
+            },
+        },
+    }
+}
+
+fn oracle_tx(raw: &rawt::Transaction) -> String {
+    let sig = Signature::try_from(&*raw.signature).ok();
+    let vk = VerificationKey::try_from(&*raw.public_key).ok();
+    let verified = match (&sig, &vk, &raw.body) {
+        (Some(sig), Some(vk), Some(body)) => vk.verify(sig, &body.value).is_ok(),
+        _ => false,
+    };
+    let body = match &raw.body {
+        None => "-".to_string(),
+        Some(b) => match TransactionBody::try_from_any(b.clone()) {
+            Ok(_) => "ok".to_string(),
+            Err(e) => class_of(&format!("{e:?}")),
+        },
+    };
+    format!(
+        "vk:{},sig:{},body:{}",
+        u8::from(vk.is_some()),
+        u8::from(verified),
+        body
+    )
+}
+
+// ------------------------------------------------------------------------------- byte mutations
+
+/// `-` or a comma separated list of: `t<k>` truncate to k bytes, `f<bit>` flip a bit,
+/// `s<pos>:<hex>` overwrite, `i<pos>:<hex>` insert, `d<pos>:<n>` delete, `r<seed>:<n>` replace
+/// everything by n pseudo random bytes, `a<seed>:<n>` append n pseudo random bytes
+fn mutate(mut b: Vec<u8>, spec: &str) -> Vec<u8> {
+    if spec == "-" {
+        return b;
+    }
+    for m in spec.split(',') {
+        let (op, arg) = m.split_at(1);
+        match op {
+            "t" => {
+                let k: usize = arg.parse().unwrap();
+                b.truncate(k);
+            }
+            "f" => {
+                let bit: usize = arg.parse().unwrap();
+                if !b.is_empty() {
+                    let n = b.len();
+                    b[(bit / 8) % n] ^= 1 << (bit % 8);
+                }
+            }
+            "s" => {
+                let (p, h) = arg.split_once(':').unwrap();
+                let p: usize = p.parse().unwrap();
+                for (k, x) in unhex(h).into_iter().enumerate() {
+                    if p + k < b.len() {
+                        b[p + k] = x;
+                    }
+                }
+            }
+            "i" => {
+                let (p, h) = arg.split_once(':').unwrap();
+                let p = p.parse::<usize>().unwrap().min(b.len());
+                let tail = b.split_off(p);
+                b.extend(unhex(h));
+                b.extend(tail);
+            }
+            "d" => {
+                let (p, n) = arg.split_once(':').unwrap();
+                let p = p.parse::<usize>().unwrap().min(b.len());
+                let n = n.parse::<usize>().unwrap().min(b.len() - p);
+                b.drain(p..p + n);
+            }
+            "r" | "a" => {
+                let (s, n) = arg.split_once(':').unwrap();
+                let mut rng = Rng(s.parse().unwrap());
+                let extra = rng.bytes(n.parse().unwrap());
+                if op == "r" {
+                    b = extra;
+                } else {
+                    b.extend(extra);
+                }
+            }
+            other => panic!("unknown mutation {other}"),
+        }
+    }
+    b
+}
+
+// ------------------------------------------------------------------------------- the decode op
+
+/// what a service does with bytes from the network, for one message kind
+fn process<R>(
+    encoded: Vec<u8>,
+    z: u8,
+    spec: &str,
+    original: Option<&str>,
+    dump: fn(&R) -> String,
+    validate: fn(R) -> Out,
+    oracle: fn(&R) -> String,
+) -> String
+where
+    R: prost::Message + Default,
+{
+    let wire = match z {
+        0 => mutate(encoded, spec),
+        1 => crate::brotli::compress_bytes(&mutate(encoded, spec)).expect("compress"),
+        _ => mutate(
+            crate::brotli::compress_bytes(&encoded).expect("compress"),
+            spec,
+        ),
+    };
+    let res = catch_unwind(AssertUnwindSafe(|| {
+        let data = if z == 0 {
+            wire.clone()
+        } else {
+            match crate::brotli::decompress_bytes(&wire) {
+                Ok(d) => d,
+                Err(_) => return "werr=brotli".to_string(),
+            }
+        };
+        let raw = match R::decode(&*data) {
+            Ok(r) => r,
+            Err(_) => return "werr=prost".to_string(),
+        };
+        let o = oracle(&raw);
+        let d = dump(&raw);
+        // the codec round trip law on the unmutated encoding: decode(encode(raw)) = raw
+        let rt = match original {
+            Some(orig) if spec == "-" => format!(" rt={}", orig == d),
+            _ => String::new(),
+        };
+        let head = match validate(raw) {
+            Out::Err(c) => format!("err={c}"),
+            Out::Ok {
+                reenc,
+                checks,
+                extra,
+            } => format!("ok reenc={reenc} checks={checks}{extra}"),
+        };
+        format!("{head}{rt} o={o} raw= {d}")
+    }));
+    res.unwrap_or_else(|_| "panic".to_string())
+}
+
+/// prost encoding of the raw struct given as a dump (`-` alone: the default value)
+fn encode_kind(kind: &str, d: &[&str]) -> Vec<u8> {
+    let default = d == ["-"];
+    match kind {
+        "tx" if default => rawt::Transaction::default().encode_to_vec(),
+        "tx" => parse_tx(d).encode_to_vec(),
+        "sb" if default => raws::SequencerBlock::default().encode_to_vec(),
+        "sb" => parse_sb(d).encode_to_vec(),
+        "fb" if default => raws::FilteredSequencerBlock::default().encode_to_vec(),
+        "fb" => parse_fb(d).encode_to_vec(),
+        "md" if default => raws::SubmittedMetadata::default().encode_to_vec(),
+        "md" => parse_md(d).encode_to_vec(),
+        "rd" if default => raws::SubmittedRollupData::default().encode_to_vec(),
+        "rd" => parse_rd(d).encode_to_vec(),
+        "mdl" => parse_mdl(d).encode_to_vec(),
+        "rdl" => parse_rdl(d).encode_to_vec(),
+        other => panic!("unknown kind {other}"),
+    }
+}
+
+fn oracle_block_eci(e: Option<&raws::ExtendedCommitInfoWithProof>) -> String {
+    format!("eci:{}", oracle_eci(e))
+}
+
+/// `w <kind> <z> <mutations> [@<source kind>] <dump>`
+fn op_w(toks: &[&str]) -> String {
+    let kind = toks[1];
+    let z: u8 = toks[2].parse().unwrap();
+    let spec = toks[3];
+    let (src, d) = match toks[4].strip_prefix('@') {
+        Some(src) => (src, &toks[5..]),
+        None => (kind, &toks[4..]),
+    };
+    // `S<seed>` (transactions only): sign the body bytes of the dump with the key of `seed` first
+    let (encoded, spec, resigned) = match spec.strip_prefix('S') {
+        Some(seed) => {
+            let mut raw = parse_tx(d);
+            let key = signing_key(seed.parse().unwrap());
+            if let Some(body) = &raw.body {
+                raw.signature = Bytes::copy_from_slice(&key.sign(&body.value).to_bytes());
+            }
+            raw.public_key = Bytes::copy_from_slice(&key.verification_key().to_bytes());
+            (raw.encode_to_vec(), "-", true)
+        }
+        None => (encode_kind(src, d), spec, false),
+    };
+    let joined = d.join(" ");
+    let original = (src == kind && d != ["-"] && !resigned).then_some(joined.as_str());
+    let r = match kind {
+        "tx" => process::<rawt::Transaction>(
+            encoded, z, spec, original, dump_tx, validate_tx, oracle_tx,
+        ),
+        "sb" => process::<raws::SequencerBlock>(
+            encoded, z, spec, original, dump_sb, validate_sb,
+            |r| oracle_block_eci(r.extended_commit_info_with_proof.as_ref()),
+        ),
+        "fb" => process::<raws::FilteredSequencerBlock>(
+            encoded, z, spec, original, dump_fb, validate_fb,
+            |r| oracle_block_eci(r.extended_commit_info_with_proof.as_ref()),
+        ),
+        "md" => process::<raws::SubmittedMetadata>(
+            encoded, z, spec, original, dump_md, validate_md,
+            |r| oracle_block_eci(r.extended_commit_info_with_proof.as_ref()),
+        ),
+        "rd" => process::<raws::SubmittedRollupData>(
+            encoded, z, spec, original, dump_rd, validate_rd, |_| "-".to_string(),
+        ),
+        "mdl" => process::<raws::SubmittedMetadataList>(
+            encoded, z, spec, original, dump_mdl, validate_mdl,
+            |r| {
+                let o: Vec<&str> = r
+                    .entries
+                    .iter()
+                    .map(|e| oracle_eci(e.extended_commit_info_with_proof.as_ref()))
+                    .collect();
+                format!("eci:{}", if o.is_empty() { "-".to_string() } else { o.join("+") })
+            },
+        ),
+        "rdl" => process::<raws::SubmittedRollupDataList>(
+            encoded, z, spec, original, dump_rdl, validate_rdl, |_| "-".to_string(),
+        ),
+        other => panic!("unknown kind {other}"),
+    };
+    format!("w {kind} {r}")
+}
+
+// ------------------------------------------------------------------------------- builders
+
+fn address(rng: &mut Rng) -> Address {
+    let mut a = [0u8; 20];
+    a.copy_from_slice(&rng.bytes(20));
+    Address::builder()
+        .array(a)
+        .prefix("astria")
+        .try_build()
+        .unwrap()
+}
+
+fn op_mk_sb(toks: &[&str], out: &mut String) {
+    let seed = kv_u64(toks, "seed", 1);
+    let rollups = kv_u64(toks, "rollups", 2);
+    let txs = kv_u64(toks, "txs", 2);
+    let deps = kv_u64(toks, "deps", 0);
+    let items = kv_u64(toks, "items", 1) == 1;
+    let aspen = kv_u64(toks, "aspen", 1) == 1;
+    let eci = kv_u64(toks, "eci", 1) == 1;
+    let mut rng = Rng(seed);
+    let mut key = [0u8; 32];
+    key.copy_from_slice(&rng.bytes(32));
+    let ids: Vec<RollupId> = (0..rollups)
+        .map(|j| RollupId::from_unhashed_bytes(format!("rollup-{seed}-{j}")))
+        .collect();
+    let mut sequence_data = Vec::new();
+    for id in &ids {
+        for _ in 0..txs {
+            let n = rng.below(120) as usize;
+            sequence_data.push((*id, rng.bytes(n)));
+        }
+    }
+    let mut deposits = Vec::new();
+    for k in 0..deps {
+        let rollup_id = if ids.is_empty() || rng.below(3) == 0 {
+            RollupId::from_unhashed_bytes(format!("deposit-rollup-{seed}-{k}"))
+        } else {
+            ids[rng.below(ids.len() as u64) as usize]
+        };
+        let mut txid = [0u8; 32];
+        txid.copy_from_slice(&rng.bytes(32));
+        deposits.push(Deposit {
+            bridge_address: address(&mut rng),
+            rollup_id,
+            amount: u128::from(rng.next()),
+            asset: "nria".parse().unwrap(),
+            destination_chain_address: format!("dest-{k}"),
+            source_transaction_id: TransactionId::new(txid),
+            source_action_index: k,
+        });
+    }
+    let mut bh = [0u8; 32];
+    bh.copy_from_slice(&rng.bytes(32));
+    let block = ConfigureSequencerBlock {
+        block_hash: Some(crate::sequencerblock::v1::block::Hash::new(bh)),
+        chain_id: Some(kv(toks, "cid").unwrap_or("test-1").to_string()),
+        height: u32::try_from(kv_u64(toks, "height", 1)).unwrap(),
+        proposer_address: None,
+        signing_key: Some(SigningKey::from(key)),
+        sequence_data,
+        deposits,
+        unix_timestamp: (
+            kv(toks, "secs").map_or(1_700_000_000, |v| v.parse().unwrap()),
+            u32::try_from(kv_u64(toks, "nanos", 0)).unwrap(),
+        )
+            .into(),
+        use_data_items: items,
+        with_aspen: aspen,
+        with_extended_commit_info: eci,
+    }
+    .make();
+    let raw = block.clone().into_raw();
+    writeln!(out, "mk sb len={} {}", raw.encoded_len(), dump_sb(&raw)).unwrap();
+    let subset: Vec<RollupId> = block
+        .rollup_transactions()
+        .keys()
+        .copied()
+        .enumerate()
+        .filter_map(|(k, id)| (k % 2 == 0).then_some(id))
+        .collect();
+    let fb = block.to_filtered_block(subset).into_raw();
+    writeln!(out, "mk fb len={} {}", fb.encoded_len(), dump_fb(&fb)).unwrap();
+    let (md, rds) = block.split_for_celestia();
+    let md = md.into_raw();
+    writeln!(out, "mk md len={} {}", md.encoded_len(), dump_md(&md)).unwrap();
+    let mut rd_list = Vec::new();
+    for rd in rds {
+        let rd = rd.into_raw();
+        writeln!(out, "mk rd len={} {}", rd.encoded_len(), dump_rd(&rd)).unwrap();
+        rd_list.push(rd);
+    }
+    let mdl = raws::SubmittedMetadataList {
+        entries: vec![md],
+    }
+    .encode_to_vec();
+    let rdl = raws::SubmittedRollupDataList {
+        entries: rd_list,
+    }
+    .encode_to_vec();
+    writeln!(
+        out,
+        "mk lists mdl={} mdlz={} rdl={} rdlz={}",
+        mdl.len(),
+        crate::brotli::compress_bytes(&mdl).unwrap().len(),
+        rdl.len(),
+        crate::brotli::compress_bytes(&rdl).unwrap().len()
+    )
+    .unwrap();
+}
+
+/// the signing key of the transactions of `seed`
+fn signing_key(seed: u64) -> SigningKey {
+    let mut rng = Rng(seed ^ 0x7478);
+    let mut key = [0u8; 32];
+    key.copy_from_slice(&rng.bytes(32));
+    SigningKey::from(key)
+}
+
+fn op_mk_tx(toks: &[&str], out: &mut String) {
+    let seed = kv_u64(toks, "seed", 1);
+    let mut rng = Rng(seed ^ 0x7478);
+    let _ = rng.bytes(32);
+    let mut actions: Vec<Action> = Vec::new();
+    // acts: a string of letters, one per action
+    for c in kv(toks, "acts").unwrap_or("r").chars() {
+        let a: Action = match c {
+            'r' => {
+                let n = rng.below(80) as usize;
+                RollupDataSubmission {
+                    rollup_id: RollupId::from_unhashed_bytes(format!("tx-rollup-{}", rng.below(4))),
+                    data: rng.bytes(n).into(),
+                    fee_asset: "nria".parse().unwrap(),
+                }
+                .into()
+            }
+            't' => Transfer {
+                to: address(&mut rng),
+                amount: u128::from(rng.next()) << (rng.below(64) as u32),
+                asset: "nria".parse().unwrap(),
+                fee_asset: "nria".parse().unwrap(),
+            }
+            .into(),
+            'l' => BridgeLock {
+                to: address(&mut rng),
+                amount: u128::from(rng.next()),
+                asset: "nria".parse().unwrap(),
+                fee_asset: "nria".parse().unwrap(),
+                destination_chain_address: format!("dest-{}", rng.below(100)),
+            }
+            .into(),
+            's' => SudoAddressChange {
+                new_address: address(&mut rng),
+            }
+            .into(),
+            'i' => IbcSudoChange {
+                new_address: address(&mut rng),
+            }
+            .into(),
+            'f' => FeeAssetChange::Addition("nria".parse().unwrap()).into(),
+            'c' => IbcRelayerChange::Addition(address(&mut rng)).into(),
+            other => panic!("unknown action letter {other}"),
+        };
+        actions.push(a);
+    }
+    let body = TransactionBody::builder()
+        .actions(actions)
+        .chain_id(kv(toks, "cid").unwrap_or("test-1").to_string())
+        .nonce(u32::try_from(kv_u64(toks, "nonce", 0)).unwrap())
+        .try_build();
+    match body {
+        Ok(body) => {
+            let raw = body.sign(&signing_key(seed)).into_raw();
+            writeln!(out, "mk tx len={} {}", raw.encoded_len(), dump_tx(&raw)).unwrap();
+        }
+        Err(_) => writeln!(out, "mk tx invalid-group").unwrap(),
+    }
+}
+
+#[test]
+fn drive() {
+    let Ok(path) = std::env::var("VERIF_IN") else {
+        return;
+    };
+    if std::env::var("VERIF_DEBUG").is_err() {
+        std::panic::set_hook(Box::new(|_| {}));
+    }
+    let input = std::fs::read_to_string(path).unwrap();
+    let mut out = String::new();
+    for line in input.lines() {
+        let toks: Vec<&str> = line.split_whitespace().collect();
+        let Some(&cmd) = toks.first() else {
+            continue;
+        };
+        match cmd {
+            "case" => writeln!(out, "{line}").unwrap(),
+            "mk" => {
+                // builders run the crate's test utilities; a configuration they do not support
+                // is reported, not fatal
+                let mut built = String::new();
+                let r = catch_unwind(AssertUnwindSafe(|| match toks[1] {
+                    "sb" => op_mk_sb(&toks, &mut built),
+                    "tx" => op_mk_tx(&toks, &mut built),
+                    other => panic!("unknown mk {other}"),
+                }));
+                match r {
+                    Ok(()) => out.push_str(&built),
+                    Err(_) => writeln!(out, "mk {} unsupported", toks[1]).unwrap(),
+                }
+            }
+            "w" => {
+                let r = op_w(&toks);
+                writeln!(out, "{r}").unwrap();
+            }
+            "class" => {
+                // self-test of the class extraction
+                writeln!(out, "class {}", class_of(&line[6..])).unwrap();
+            }
+            other => panic!("unknown op {other}"),
+        }
+    }
+    let _ = rawt::TransactionBody::type_url();
+    std::fs::write(std::env::var("VERIF_OUT").expect("VERIF_OUT"), out).unwrap();
+}
